@@ -1,5 +1,159 @@
 import RV.Json
+import RV.Drv.Arith
+import RV.Model.DepSync
+import RV.Oracle.C17
 namespace RV.Drv.DepSync
-open Lean RV
-def handle : Handler := fun op _ _ => .error s!"DepSync: op {op} not implemented"
+open Lean RV RV.Arith RV.DepSync RV.Oracle.C17
+
+def nameBytes (s : String) : List Nat := s.toUTF8.toList.map (·.toNat)
+
+def rsOfJson (idx : Int) (j : Json) : R RS := do
+  return { idx := idx, name := nameBytes (← fStr j "name"), created := ← fInt j "created",
+           revision := ← fInt j "revision", spec := ← fInt j "spec", pods := ← fInt j "pods",
+           avail := ← fInt j "avail", desired := ← fOptInt j "desired", maxAnno := ← fOptInt j "max" }
+
+def indexed {α} (l : List α) : List (Int × α) :=
+  (l.foldl (fun (acc : List (Int × α) × Int) a => ((acc.2, a) :: acc.1, acc.2 + 1)) ([], 0)).1.reverse
+
+def stateOfJson (j : Json) : R State := do
+  let olds ← (indexed (← fArr j "olds")).mapM fun (i, o) => rsOfJson i o
+  let nw ← match jopt j "new" with
+    | none => pure none
+    | some v => do pure (some (← rsOfJson (-1) v))
+  return { replicas := ← fInt j "replicas", partition := ← Arith.iosOfJson (← jget j "partition"),
+           rolling := ← fBool j "rolling", maxSurge := ← Arith.iosOptOfJson j "surge",
+           maxUnavailable := ← Arith.iosOptOfJson j "unavailable", paused := ← fBool j "paused",
+           deleting := ← fBool j "deleting", statusReplicas := ← fInt j "statusReplicas",
+           now := ← fInt j "now", new := nw, olds := olds }
+
+def postRSJ (r : RS) : Json :=
+  mkObj [("spec", intJ r.spec), ("desired", optJ intJ r.desired), ("max", optJ intJ r.maxAnno)]
+
+def findIdx (l : List RS) (k : Int) : R RS :=
+  match l.find? (·.idx == k) with
+  | some r => .ok r
+  | none => .error s!"model lost RS {k}"
+
+/-- the model's sync in the harness's output format -/
+def resultJ (s : State) (r : Result) : R Json := do
+  let olds ← (indexed s.olds).mapM fun (i, _) => findIdx r.olds i
+  return mkObj [("err", boolJ r.err),
+    ("writes", arrJ (r.writes.map fun w => arrJ [intJ w.idx, intJ w.to])),
+    ("post", mkObj [("new", optJ postRSJ r.new), ("olds", arrJ (olds.map postRSJ)),
+                    ("statusReplicas", intJ r.statusReplicas)])]
+
+/-- state after the sync as the *implementation* reports it: input state with the reported sizes -/
+def implPost (s : State) (impl : Json) : R State := do
+  let p ← jget impl "post"
+  let olds ← (s.olds.zip (← fArr p "olds")).mapM fun (r, j) => do
+    return { r with spec := ← fInt j "spec", desired := ← fOptInt j "desired", maxAnno := ← fOptInt j "max" }
+  let nw ← match jopt p "new", s.new with
+    | none, _ => pure none
+    | some j, some r => do
+      pure (some { r with spec := ← fInt j "spec", desired := ← fOptInt j "desired", maxAnno := ← fOptInt j "max" })
+    | some j, none => do
+      pure (some { idx := -1, name := createdName, created := s.now, revision := 0, spec := ← fInt j "spec",
+                   pods := 0, avail := 0, desired := ← fOptInt j "desired", maxAnno := ← fOptInt j "max" })
+  return { s with new := nw, olds := olds }
+
+def bucket (n : Int) : String :=
+  if n ≤ 0 then "0" else if n ≤ 1 then "1" else if n ≤ 3 then "2-3" else if n ≤ 7 then "4-7"
+  else if n ≤ 15 then "8-15" else "16+"
+
+def ioKind : IntOrPct → String
+  | .int _ => "int" | .pct _ => "pct" | .bad => "bad"
+
+def rsJ (r : RS) : Json :=
+  mkObj [("name", strJ (String.ofList (r.name.map fun n => Char.ofNat n))), ("created", intJ r.created),
+         ("revision", intJ r.revision), ("spec", intJ r.spec), ("pods", intJ r.pods), ("avail", intJ r.avail),
+         ("desired", optJ intJ r.desired), ("max", optJ intJ r.maxAnno)]
+
+def stateJ (s : State) : Json :=
+  mkObj [("replicas", intJ s.replicas), ("partition", Arith.iosToJson s.partition), ("rolling", boolJ s.rolling),
+         ("surge", optJ Arith.iosToJson s.maxSurge), ("unavailable", optJ Arith.iosToJson s.maxUnavailable),
+         ("paused", boolJ s.paused), ("deleting", boolJ s.deleting), ("statusReplicas", intJ s.statusReplicas),
+         ("now", intJ s.now), ("new", optJ rsJ s.new), ("olds", arrJ (s.olds.map rsJ))]
+
+/-- healthy schedule: sync, environment catches up; until nothing changes (at most `fuel` rounds) -/
+def converge (fuel : Nat) (s : State) (rounds : Nat) : Option (Nat × State) :=
+  match fuel with
+  | 0 => some (rounds, s)
+  | fuel + 1 =>
+    let r := sync s
+    if r.err || r.undef then none else
+    let t := round s
+    if t == s then some (rounds, s) else converge fuel t (rounds + 1)
+
+def handle : Handler := fun op inp impl => do
+  match op with
+  | "sync" =>
+    let s ← stateOfJson inp
+    let r := sync s
+    let pathTag := match r.path with
+      | .statusOnly => "path:statusOnly" | .scale => "path:scale" | .rolling => "path:rolling"
+    let tags := [pathTag, s!"olds:{s.olds.length}", s!"activeOlds:{(active s.olds).length}",
+                 s!"new:{if s.new.isSome then "present" else "absent"}",
+                 s!"replicas:{bucket s.replicas}", s!"partition:{ioKind s.partition}",
+                 s!"writes:{r.writes.length}"]
+      ++ (if inv s then ["inv:ok"] else ["inv:no"])
+      ++ (if s.new.isNone && r.new.isSome then ["act:create"] else [])
+      ++ (if s.new.isSome && optSpec s.new < optSpec r.new then ["act:newUp"] else [])
+      ++ (if optSpec r.new < optSpec s.new then ["act:newDown"] else [])
+      ++ (if sumSpec s.olds < sumSpec r.olds then ["act:oldUp"] else [])
+      ++ (if sumSpec r.olds < sumSpec s.olds then ["act:oldDown"] else [])
+      ++ (if r.writes.isEmpty then ["act:none"] else [])
+      ++ (if unhealthyOld s > 0 && inScope s then ["state:unhealthyOld"] else [])
+      ++ (if (match s.new with | some n => s.olds.any (fun o => decide (n.created < o.created)) | none => false)
+          then ["state:newOlderThanSomeOld"] else [])
+      ++ (if lowerBoundRegion s && inScope s then ["guard:lowerBound"] else [])
+      ++ (if stale s && inScope s then ["guard:stale"] else [])
+      ++ (if r.err then ["model:err"] else [])
+      ++ (if s.olds.isEmpty && s.new.isNone then ["trivial"] else [])
+    if (jopt impl "skipped").isSome then
+      return { model := .null, tags := ["skipped", "trivial"] }
+    if (jopt impl "panic").isSome then
+      return { model := ← resultJ s r, holds := [("C17.nopanic", false)], tags := tags ++ ["impl:panic"] }
+    if r.undef then
+      -- float division by zero in getReplicaSetFraction: the code's result is implementation-defined
+      return { model := .null, tags := tags ++ ["undef:fraction-div0"] }
+    let t ← implPost s impl
+    -- the clauses are claimed for states satisfying the invariant `I`
+    let ok := inv s
+    let holds := if ok then
+      [("C17.i", clauseI s t), ("C17.i0", clauseI0 s t), ("C17.ii", clauseII s t), ("C17.iiup", clauseIIup s t),
+       ("C17.iii", clauseIII s t), ("C17.ivbudget", clauseIVbudget s t), ("C17.iv", clauseIV s t),
+       ("C17.inv", inv t)]
+      else []
+    return { model := ← resultJ s r, holds := holds, tags := tags }
+  | "env" =>
+    let s ← stateOfJson (← jget inp "s")
+    let name := nameBytes (← fStr inp "rs")
+    let pods ← fInt inp "pods"
+    let avail ← fInt inp "avail"
+    let upd (r : RS) : RS := if r.name == name then { r with pods := pods, avail := avail } else r
+    let t : State := { s with new := s.new.map upd, olds := s.olds.map upd }
+    let all := s.olds ++ s.new.toList
+    let admissible := all.all fun r => r.name != name || envOk r (upd r)
+    return { model := stateJ t, holds := [("C17.env", admissible), ("C17.envinv", !inv s || inv t)],
+             tags := ["env", if admissible then "env:ok" else "env:bad"] }
+  | "converge" =>
+    let s ← stateOfJson (← jget inp "s")
+    let fuel ← fNat inp "max"
+    if (jopt impl "failed").isSome || (jopt impl "panic").isSome then
+      -- a sync returned an error on the way (only possible outside the claimed region)
+      let claimed := live s
+      return { model := .null, holds := [("C17.v", !claimed)], tags := ["converge", "converge:failed"] }
+    let nf ← fInt impl "new"
+    let of' ← fInt impl "old"
+    let claimed := live s
+    let tags := ["converge", if claimed then "converge:claimed" else "converge:unclaimed",
+                 s!"replicas:{bucket s.replicas}"]
+    match converge fuel s 0 with
+    | none => return { model := .null, holds := [("C17.v", clauseV s nf of')], tags := tags ++ ["undef"] }
+    | some (rounds, t) =>
+      return { model := mkObj [("rounds", natJ rounds), ("new", intJ (match t.new with | none => -1 | some r => r.spec)),
+                               ("old", intJ (oldTotal t))],
+               holds := [("C17.v", clauseV s nf of')], tags := tags ++ [s!"rounds:{bucket rounds}"] }
+  | _ => .error s!"depsync: unknown op {op}"
+
 end RV.Drv.DepSync
